@@ -310,8 +310,9 @@ func (c dnsrespComp) Gen(r *Rand, tier string, emit func(string)) {
 		}
 	}
 	for _, rr := range []string{"null", "priv"} {
-		for _, n := range []int{65519, 65520, 65521, 65530, 65531} {
-			if !thorough && n != 65520 && n != 65521 {
+		// the stream is command letter + 5 header bytes + n: one record up to 65530 bytes, then two
+		for _, n := range []int{65523, 65524, 65525, 65526, 65535} {
+			if !thorough && n != 65524 && n != 65525 {
 				continue
 			}
 			c.emitResp(emit, "R", "example.org", rr, fmt.Sprintf("c _ 1 1 2 %s", hexs(stressBytes(r, n, 4))))
